@@ -30,6 +30,7 @@ def must_see(tier):
         for r in REASONS:
             m['%s:reason:%d' % (impl, r)] = 1
         m[impl + ':merged'] = 100
+        m[impl + ':subclass-instance'] = 100
     m['merge:ins+ins'] = 1
     m['merge:ins+del'] = 1
     m['merge:del+chg'] = 1
@@ -142,6 +143,16 @@ MALFORMED = [
 ]
 
 
+_SUBS = {}
+
+
+def _subclass(cls):
+    sub = _SUBS.get(cls)
+    if sub is None:
+        sub = _SUBS[cls] = type(cls)(cls.__name__ + 'Sub', (cls,), {})
+    return sub
+
+
 def run_shard(spec, rec):
     fam = families.get(spec['family'])
     rng = rng_for(spec['seed'], ID, spec['family'])
@@ -191,8 +202,15 @@ def run_shard(spec, rec):
                 except Exception:
                     states[j] = 7
             outs = {}
+            use_sub = i % 5 == 4
             for impl in ('c', 'py'):
                 cls = fam.cls(kind, impl)
+                if use_sub:
+                    # applications subclass the container classes; the
+                    # resolver of an instance of a subclass must behave as
+                    # its base class does
+                    cls = _subclass(cls)
+                    rec.ev(impl + ':subclass-instance')
                 rec.journal(repr((fam.name, kind, impl, states)))
                 try:
                     outs[impl] = ('ok', cls()._p_resolveConflict(*states))
